@@ -318,7 +318,27 @@ def _regex_to_smt(pattern, flags):
     return seq(list(parsed))
 
 
+_DOMAIN_RX = r'''
+import json, re, sys
+sys.path.insert(0, sys.argv[1])
+from pamqp import constants
+print(json.dumps({k: ([v.pattern, int(v.flags)] if isinstance(v, re.Pattern) and isinstance(v.pattern, str) else None)
+                  for k, v in constants.DOMAIN_REGEX.items()}))
+'''
+
+
 def _domain_regexes(repo):
+    # the compiled objects of the real module (a shared or renamed pattern constant is followed: sixth
+    # seeded round, H13_1); the syntactic reading below is the fallback
+    import json
+    import subprocess
+    try:
+        p = subprocess.run(['/venv/bin/python', '-c', _DOMAIN_RX, repo], capture_output=True, text=True,
+                           timeout=60, cwd='/')
+        if p.returncode == 0:
+            return {k: (tuple(v) if v else None) for k, v in json.loads(p.stdout).items()}
+    except Exception:
+        pass
     tree = ast.parse(open(os.path.join(repo, 'pamqp', 'constants.py')).read())
     out = {}
     for node in tree.body:
